@@ -233,6 +233,8 @@ func Invariant(w *world.World) []world.Finding {
 type scenario struct {
 	Edits  int    `json:"edits"`
 	Faults int    `json:"faults"`
+	// Conflicts: budget of foreign writes landing inside a deployment pass
+	Conflicts int `json:"conflicts"`
 	Stale  int    `json:"staleLists"`
 	Clash  string `json:"clash"` // "", archived, different-spec, foreign
 	Pause  int    `json:"pauses"`
@@ -299,6 +301,7 @@ func system(sc scenario) *world.System {
 			}
 			w.Budget["edit"] = sc.Edits
 			w.Budget["fault"] = sc.Faults
+			w.Budget["conflict"] = sc.Conflicts
 			w.Budget["stale"] = sc.Stale
 			w.Budget["user-pause"] = sc.Pause
 			return w
@@ -350,6 +353,7 @@ func system(sc scenario) *world.System {
 				}
 			}
 			evs = append(evs, osw.FaultEvents(w, world.CtrlObjectDeployment, "d", []world.FaultKind{world.ErrBefore, world.LostResponse, world.Crash})...)
+			evs = append(evs, osw.ConflictEvents(w, world.CtrlObjectDeployment, "d")...)
 			if w.Budget["stale"] > 0 {
 				// the one staleness the code handles: the List does not yet show an ObjectSet that a
 				// preceding deployment pass created and that nobody else has observed since
@@ -390,16 +394,17 @@ func scenarios(quick bool) []scenario {
 		{Edits: 1, Clash: "archived"},
 		{Edits: 1, Clash: "different-spec"},
 		{Edits: 1, Clash: "foreign", Faults: 1},
+		{Edits: 2, Conflicts: 1},
 	}
 	if !quick {
-		out = append(out, scenario{Edits: 3, Faults: 1, Stale: 1}, scenario{Edits: 3, Pause: 2}, scenario{Edits: 2, Faults: 2}, scenario{Edits: 2, Clash: "archived", Faults: 1, Stale: 1})
+		out = append(out, scenario{Edits: 3, Faults: 1, Stale: 1}, scenario{Edits: 3, Pause: 2}, scenario{Edits: 2, Faults: 2}, scenario{Edits: 2, Conflicts: 2, Stale: 1}, scenario{Edits: 2, Clash: "archived", Faults: 1, Stale: 1})
 	}
 	return out
 }
 
 func run(o checks.Opts) *report.Report {
 	rep := report.New("C07", "bfs")
-	rep.Rule = "explicit-state BFS: ObjectDeployment d with templates T1{a,b}, T2{a,c}, E(no phases); events = user edits between templates (incl. reverting), reconcile(ObjectDeployment) and reconcile(each ObjectSet) in any order, every fault kind (error before effect, lost response, crash) at every request of the deployment's pass, a deployment pass whose List misses the most recently created ObjectSet, pause/unpause, pre-seeded name clashes (archived / different spec / foreign controller); monitor on every deployment pass + state invariant on revision numbers"
+	rep.Rule = "explicit-state BFS: ObjectDeployment d with templates T1{a,b}, T2{a,c}, E(no phases); events = user edits between templates (incl. reverting), reconcile(ObjectDeployment) and reconcile(each ObjectSet) in any order, every fault kind (error before effect, lost response, crash) at every request of the deployment's pass, another actor's write landing before each write of the pass (update conflict), a deployment pass whose List misses the most recently created ObjectSet, pause/unpause, pre-seeded name clashes (archived / different spec / foreign controller); monitor on every deployment pass + state invariant on revision numbers"
 	scs := scenarios(o.Quick())
 	rep.Bounds["systems"] = len(scs)
 	for i, sc := range scs {
